@@ -354,13 +354,16 @@ def pullN (c : Co) : Nat → c.σ → c.σ × List Ev
     let (s', e) := pullN c n r.st
     (s', r.ev ++ e)
 
-/-- `Step` (`step ≥ 1`): yields the next value, then advances `step - 1` more times -/
+/-- `Step` (`step ≥ 1`), lazy: the `pending` stepped-over elements are skipped right before the next
+value is needed (stopping at the first `None`); after a value was yielded `step - 1` are pending -/
 def stepCo (n : Nat) (c : Co) : Co where
-  σ := c.σ
+  σ := c.σ × Nat
   next s :=
-    let r := c.next s
-    let (s', e) := pullN c (n - 1) r.st
-    ⟨r.out, s', r.ev ++ e⟩
+    let (ok, s', e) := advance c s.2 s.1
+    if ok then
+      let r := c.next s'
+      ⟨r.out, (r.st, if r.out.isSome then n - 1 else 0), e ++ r.ev⟩
+    else ⟨none, (s', 0), e⟩
   back := noBack
   bidir := false
 
@@ -717,7 +720,7 @@ def build (fuel : Nat) : Pipe → It
   | .take n p => let it := build fuel p; ⟨takeCo it.c, (it.s, n)⟩
   | .takeWhile q p => let it := build fuel p; ⟨takeWhileCo q it.c, (it.s, false)⟩
   | .skip n p => let it := build fuel p; ⟨skipCo it.c, (it.s, n)⟩
-  | .step n p => let it := build fuel p; ⟨stepCo n it.c, it.s⟩
+  | .step n p => let it := build fuel p; ⟨stepCo n it.c, (it.s, 0)⟩
   | .chain p q => let a := build fuel p; let b := build fuel q; ⟨chainCo a.c b.c, (some a.s, b.s)⟩
   | .zip p q => let a := build fuel p; let b := build fuel q; ⟨zipCo a.c b.c, (a.s, b.s)⟩
   | .enumerate p => let it := build fuel p; ⟨enumerateCo it.c, (it.s, 0)⟩
